@@ -88,3 +88,10 @@ def run(ctx):
     ctx.guarded(r, r6_interval_choice)
     r = ctx.rule("R4", "a cached simplification is reused only for the same trace; new children are keyed by a copy of their trace", 11)
     ctx.guarded(r, RH.r_cache_key)
+    # CopyReg / CopyImm exist only on simplified tapes (a decided choice that keeps a shared operand alive),
+    # so nothing but a simplified tape ever runs these arms and builders
+    r = ctx.rule("R8", "the copy ops that only simplification produces are implemented by every evaluator (value copied whole, in the right direction)", 12)
+    for label in ("point", "interval", "float_slice", "grad_slice"):
+        ctx.guarded(r, lambda rule, label=label: V.check_loop(rule, label, only=("CopyReg", "CopyImm")))
+    for kind in AC.ALL:
+        ctx.guarded(r, AC.check_simple_builders, kind, only=("build_copy",))
